@@ -93,6 +93,31 @@ def gen_case(rng, max_ops, extras=True):
         "ns": ("none",) if (mech == "gdp" and rng.random() < 0.8) else gen_spec(rng),
         "cs": gen_spec(rng), "kind": "token", "seed": rng.randrange(1000),
     }
+    if rng.random() < 0.5:
+        # structured half: history | save | (anything) | load | continuation – a cut inside a real
+        # history (the random half below reaches this shape only rarely)
+        def seg(b, need_log):
+            out, pend, logged = [], 0, False
+            for _ in range(rng.randint(1, max(2, max_ops // 3))):
+                r = rng.random()
+                if r < 0.45:
+                    out.append(f"log {b}"); b += 1; pend = 0; logged = True
+                elif r < 0.6 and pend < 3:
+                    out.append(f"skip {b}"); b += 1; pend += 1
+                elif r < 0.8:
+                    out.append("ns")
+                else:
+                    out.append("cs")
+            if need_log and not logged:
+                out.append(f"log {b}"); b += 1
+            return out, b
+        pre, b = seg(0, True)
+        mid, b = seg(b, False) if rng.random() < 0.4 else ([], b)
+        post, b = seg(b, True)
+        ops = pre + ["save"] + mid + ["load"] + post
+        if extras and rng.random() < 0.5:
+            ops.insert(rng.randint(len(pre) + len(mid) + 2, len(ops)), rng.choice(["dicthist", "sd"]))
+        return {"cfg": cfg, "ops": ops}
     ops, b, pend = [], 0, 0
     n = rng.randint(3, max_ops)
     saved = False
